@@ -51,17 +51,22 @@ class Sub:
         self.kicked = False         # another Process's failure handler left `gitting` while this one held it
         self.handler = None         # VerifyHandler given to reactor.spawnProcess
         self.over = False
+        self.cleared = 0            # calls of the `clear` callback (Defer.__busy released)
+        self.request = None
 
 
 class FakeRequest:
     def __init__(self):
         self.written, self.finished = [], 0
+        self.finish_exc = None      # what finish() raises: Twisted raises RuntimeError once the connection is lost
 
     def write(self, b):
         self.written.append(b)
 
     def finish(self):
         self.finished += 1
+        if self.finish_exc is not None:
+            raise self.finish_exc
 
 
 def parse_dot(path, before=None):
@@ -110,9 +115,24 @@ class World:
         self.reopen_answer = False
         self.db_calls = []
 
+        self.eager = False   # schedule in which a new poller thread runs its first loop test at once
+
         def defer_to_thread(fn, *a, **k):
             d = self.Deferred()
-            self.pending.append(Rec(fn, a, k, d))
+            rec = Rec(fn, a, k, d)
+            self.pending.append(rec)
+            if self.eager and rec.kind in WAIT.values():
+                # the new thread wins the race: it runs until it ends or reaches its first time.sleep BEFORE
+                # deferToThread returns to the statements that follow in wait_for_*; its result is delivered to
+                # the reactor afterwards (deliver_finished)
+                try:
+                    rec.result = fn(*a, **k)
+                    rec.finished = True
+                except StillWaiting:
+                    pass
+                except Exception as e:  # pylint: disable=broad-except
+                    rec.error = e
+                    rec.finished = True
             return d
 
         twisted.internet.threads.deferToThread = defer_to_thread
@@ -392,7 +412,12 @@ class World:
 
     def _new_sub(self, which, changeset, submission):
         mod = self.submit_api if which == 'api' else self.submit_old
-        sub = Sub(which, mod.Process(changeset, lambda: None, FakeRequest(), submission))
+        request = FakeRequest()
+        box = []
+        sub = Sub(which, mod.Process(changeset, lambda: box and setattr(box[0], 'cleared', box[0].cleared + 1),
+                                     request, submission))
+        box.append(sub)
+        sub.request = request
         real3, real1, realf = sub.proc.step_3, sub.proc.step_1, sub.proc.failure
         fsm = self.fsm
 
@@ -618,6 +643,20 @@ class World:
                 f'the reset request (archive={bool(archive)}) was refused in {snap["state"]}/{snap["tr"]} (no trigger '
                 f'fired) but changed { {k: (snap[k], after[k]) for k in snap if snap[k] != after[k]} }'))
         return o
+
+    def deliver_finished(self):
+        """fire the Deferreds of the pollers that already ended (eager schedule); returns their kinds"""
+        kinds = []
+        for rec in [r for r in self.pending if getattr(r, 'finished', False)]:
+            self.pending.remove(rec)
+            kinds.append(rec.kind)
+            if getattr(rec, 'error', None) is not None:
+                rec.d.errback(self.Failure(rec.error))
+            else:
+                rec.d.callback(rec.result)
+            if isinstance(getattr(rec.d, 'result', None), self.Failure):
+                rec.d.addErrback(lambda f: None)
+        return kinds
 
     def run_rec(self, rec, reopen=False):
         """run the captured thunk, then fire the Deferred the way deferToThread would"""
